@@ -112,6 +112,29 @@ def gen_case(r):
     return lines
 
 
+def gen_big_case(r):
+    """an array that outgrows the default size limit of an arena / scope node (32 KiB) while it lives there"""
+    es = r.choice([1, 4, 7, 33, 64])
+    kind = r.choice(["arena", "arena2", "scope", "stack", "heap"])
+    lines = ["arr new %s %d %d" % (kind, es, r.choice([0, 4, 33]))]
+    rb = lambda k: vlib.hexs(r.randbytes(k * es))
+    n, target = 0, r.choice([34000, 49000, 70000]) // es + 1
+    while n < target:
+        k = r.choice([1, 300, 2000, 9000, 20000]) // es + 1
+        m = r.random()
+        if m < 0.6:
+            lines.append("arr append %s" % rb(k)); n += k
+        elif m < 0.8:
+            lines.append("arr insert %d %s" % (r.choice([0, n, r.randrange(n + 1)]), rb(k))); n += k
+        elif m < 0.9:
+            lines.append("arr reserve %d" % (n + k))
+        else:
+            lines.append("arr push %s" % rb(1)); n += 1
+    p = r.randrange(n); c = r.randrange(0, min(n - p, 5000) + 1)
+    lines += ["arr erase %d %d" % (p, c), "arr push %s" % rb(1), "arr fold", "arr delete", "arr end"]
+    return lines
+
+
 def _len_after(lines):
     """replays the script on the sequence model to learn the length (needed after a filter)"""
     es, seq = 1, []
@@ -140,7 +163,7 @@ def run(ctx):
     ctx.rules.append("a case = one script of array operations with valid indices over element sizes "
                      "1,2,3,4,5,7,8,12,16,24,33,64 and storage kinds heap / tight arena (node = the array) / default arena "
                      "with a live neighbour block right after the array / scope / stack with heap fallback / stack without "
-                     "allocator; counts cross 1..4 capacity doublings; non-trivial = at least 3 ops; distinct by script text")
+                     "allocator; counts cross 1..4 capacity doublings, plus a few arrays grown past the 32 KiB node limit of arenas and scopes; non-trivial = at least 3 ops; distinct by script text")
     ctx.assumptions += ["operations get valid indices and non-overlapping sources (documented preconditions)",
                         "map/filter/fold callbacks are fixed pure functions of the element bytes"]
     exe = ctx.build_harness("c03")
@@ -153,4 +176,6 @@ def run(ctx):
         cases = vlib.load_corpus("C03")
         for _ in range(2500 if quick else 50000):
             cases.append(gen_case(ctx.rng))
+        for _ in range(10 if quick else 150):
+            cases.append(gen_big_case(ctx.rng))
     ctx.correspond("array-scripts", exe, cases, oracle=oracle, nontrivial=lambda c: len(c) >= 5)
